@@ -30,6 +30,38 @@ def hopdist(n, edges, s, t):
     return d.get(t)
 
 
+def long_history(rng, ncalls):
+    """A long history of is_bfs_reachable calls made by ONE thread of ONE process, the i-th line being exactly the i-th call of that thread
+    (the stream runs in its own process, B cases only).  State that survives between calls (visited stamps, cached buffers, counters) is what this
+    stream is after: most calls use tiny random graphs; at the call numbers where a narrow counter would wrap (2^8, 2^15, 2^16, 2*2^16 and their
+    neighbours) the query runs on a graph LARGER than any before (vertices never touched so far), and the queries numbered 10..40 use private
+    vertex ranges that are touched again only exactly 2^8, 2^15 and 2^16 calls later (a stale mark would then equal the current stamp)."""
+    def path(n): return (n, [(i, i + 1, 1) for i in range(n - 1)])
+    wraps = [1 << 8, 1 << 15, 1 << 16, 2 << 16]
+    fresh = {}
+    big = 40
+    for w in wraps:
+        for d in (-1, 0, 1, 2):
+            if 1 <= w + d <= ncalls: big += 3; fresh[w + d] = big
+    private = {}
+    for s in range(10, 41):
+        n = 300 + 7 * s
+        for w in [0] + wraps[:3]:
+            if s + w <= ncalls: private[s + w] = n
+    out = []
+    for i in range(1, ncalls + 1):
+        if i in fresh:
+            n = fresh[i]; g = path(n); out.append("B 0 %d inf %s" % (n - 1, gen.graph_tokens(g)))
+        elif i in private:
+            n = private[i]; g = (n, [(0, n - 3, 1), (n - 3, n - 2, 1), (n - 2, n - 1, 1)]); out.append("B 0 %d 3 %s" % (n - 1, gen.graph_tokens(g)))
+        else:
+            g = gen.structural(rng, 6)
+            if g[0] == 0: g = path(2)
+            s, t = rng.randrange(g[0]), rng.randrange(g[0])
+            out.append("B %d %d %s %s" % (s, t, rng.choice(["inf", "1", "2", "3"]), gen.graph_tokens(g)))
+    return out
+
+
 def judge(case, impl):
     t = case.split()
     if t[0] == "B":
@@ -85,6 +117,12 @@ def check(tier, seed):
             d = hopdist(g[0], [(u, v) for u, v, _ in g[1]], s, t)
             h = c.rng.choice(["inf", "0", "1", "2", "3"] + ([str(d), str(max(0, d - 1)), str(d + 1)] if d is not None else ["7"]))
             cases.append("B %d %d %s %s" % (s, t, h, gen.graph_tokens(g)))
+        nshort = len(cases)
+        import random
+        nh = 70000 if tier == "quick" else 140000
+        hist = long_history(random.Random(seed * 7919 + 15), nh)
+        c.extra["long_history_calls"] = len(hist)
+        io_hist = lib.run_lines([exe], hist, par=1)   # its own process: line i is exactly the i-th is_bfs_reachable call of that thread
         io = lib.run_lines([exe], cases, par=1)      # ONE process for the whole stream: a long history of calls (tens of thousands of BFS queries) in one thread
         mcases = []
         for cs, o in zip(cases, io):
@@ -97,7 +135,8 @@ def check(tier, seed):
             except Exception:
                 scan = sorted(range(len(es)), key=lambda e: es[e][2])
             mcases.append("%s %d %s" % ("S" + cs[2:] if cs.startswith("S2 ") else cs, len(scan), " ".join(map(str, scan))))
-        mo = lib.run_model("c15", mcases)
+        mo = lib.run_model("c15", mcases + hist)
+        cases, mcases, io = cases + hist, mcases + hist, io + io_hist
         bad = []
         for i, cs in enumerate(cases):
             t = cs.split()
@@ -110,12 +149,14 @@ def check(tier, seed):
             why = judge(cases[i], io[i]); key = why is not None
             if rep.get(key, 0) >= 2: continue
             rep[key] = rep.get(key, 0) + 1
+            hd = {"history": {"seed": seed, "ncalls": nh, "index": i - nshort}} if i >= nshort else {}
             if why:
-                c.violation("spanner: " + why, {"component": "c15", "case": cases[i], "impl": io[i], "model": mo[i], "model_case": mcases[i]}, True)
+                c.violation("spanner: " + why + (" (call %d of a single-thread history of is_bfs_reachable calls)" % (i - nshort + 1) if hd else ""),
+                            dict({"component": "c15", "case": cases[i], "impl": io[i], "model": mo[i], "model_case": mcases[i]}, **hd), True)
             else:
                 c.violation("correspondence c15 (spanner / is_bfs_reachable vs model) no longer checks; the implementation's answer still satisfies the property text",
                             {"component": "c15", "theorem_or_correspondence": "correspondence c15: extracted construct_spanner / is_bfs_reachable vs harness/c15.cpp",
-                             "case": cases[i], "impl": io[i], "model": mo[i], "model_case": mcases[i]}, False)
+                             "case": cases[i], "impl": io[i], "model": mo[i], "model_case": mcases[i], **hd}, False)
         okset = set(bad)
         extra = [i for i in range(len(cases)) if i not in okset and judge(cases[i], io[i])]
         for i in extra[:2]:
@@ -133,7 +174,14 @@ def replay(path):
     lib.ensure_model()
     exe, err = lib.build_cpp(name="c15", srcs=["c15.cpp"], libs=LIBS)
     line = r["case"]
-    i = lib.run_lines([exe], [line], par=1)[0]
+    if "history" in r:       # the failure needs the calls made before it by the same thread: regenerate the stream and run its prefix
+        import random
+        h = r["history"]
+        hist = long_history(random.Random(h["seed"] * 7919 + 15), h["ncalls"])[:h["index"] + 1]
+        assert hist[-1] == line, "history stream not reproducible"
+        i = lib.run_lines([exe], hist, par=1)[-1]
+    else:
+        i = lib.run_lines([exe], [line], par=1)[0]
     why = judge(line, i)
     print("case :", line); print("impl :", i); print("judge:", why)
     if "model_case" in r:
